@@ -142,6 +142,16 @@ theorem abort_applies_proper_prefix (mp : Iso.Dict) (fix : List (Nat × Int × O
   let ⟨d, a, b, c⟩ := p rfl
   ⟨d, a, b, c, s⟩
 
+/-- Full statement (FALSE of today's tables — known findings `C14/standardize/hydrogen-count/…`, witness in
+    `Findings/C14.lean`): a rule applied to a valence-valid molecule with consistent hydrogen counts conserves the total
+    hydrogen count. No part of it is proved at rule level: the hydrogen balance of a rule depends on the valence tables of the
+    atoms it touches and on neighbours outside the pattern; it is validated on the real code by the relational oracle
+    `hydrogen-count`, and the rules that break it on valid input are listed one by one as known findings. -/
+def RulesConserveHydrogens : Prop :=
+  ∀ r ∈ allStdRules, ∀ (ri : Nat) (m : Mol) (sssr comps : List (List Nat)) (L : Labels) (st : RState) (m' : Mol),
+    m.ids.Nodup → Valence.fixStructure m = some m → Valence.checkValence m = [] → calcLabels m sssr = some L →
+    runRule r ri m L comps = some st → recalc st.hs st.mol = some m' → hydrogens m' = hydrogens m
+
 /-! ## neutralisation -/
 
 /-- **Proton balance**: whatever donors `ds` and acceptors `as` are chosen, the result differs from the input by
